@@ -13,8 +13,9 @@ EXTENDS HostMatch, Json, IOUtils, TLCExt
 
 T == JsonDeserialize(IOEnv.TRACE_FILE)
 
-TrLabels12 == { <<"a">>, <<"b">>, <<"a", "b">>, <<"*">>, <<"a", "*">>, <<"*", "a">>, <<"a", "*", "b">>, <<"*", "*">>,
-                <<"x", "n", "-", "-", "a">>, <<"x", "n", "-", "-", "*">>, <<>>, <<"A">> }
+TrLabels14 == { <<"a">>, <<"b">>, <<"a", "b">>, <<"*">>, <<"a", "*">>, <<"*", "a">>, <<"a", "*", "b">>, <<"*", "*">>,
+                <<"x", "n", "-", "-", "a">>, <<"x", "n", "-", "-", "*">>, <<>>, <<"A">>, <<"X", "N", "-", "-", "*">>,
+                <<"X", "N", "-", "-", "a">> }
 TrLabels8 == { <<"a">>, <<"b">>, <<"*">>, <<"a", "*">>, <<"*", "*">>, <<"x", "n", "-", "-", "a">>, <<>>, <<"A">> }
 TrLabels6 == { <<"a">>, <<"*">>, <<"*", "a">>, <<"x", "n", "-", "-", "a">>, <<>>, <<"A">> }
 TrLabels5 == { <<"a">>, <<"*">>, <<"a", "*">>, <<"x", "n", "-", "-", "a">>, <<>> }
@@ -23,11 +24,15 @@ TrNone == {}
 Cn(i) == IF i = 0 THEN NoCN ELSE T.cns[i]
 San(tr) == [i \in 1..Len(tr.san) |-> T.entries[tr.san[i]]]
 
+\* the suffix after "/" names the recorded input class (D13 / D14) when, and only when, the deviation action
+\* of MATCHER explains the verdict; it never changes the verdict itself
+AceTag(b) == IF b THEN "/uppercase-ace-prefix-wildcard" ELSE ""
+
 \* ---- kind "set"
 SetBad(tr) ==
     LET acc == {tr.acc[i] : i \in 1..Len(tr.acc)} IN
     {<<0, "MustAccept:Strict", NameStr(h)>> : h \in {g \in Hosts : DnsMustAccept(tr.dn, g) /\ g \notin acc}}
-    \cup {<<i, "MustReject:" \o DnsRejectClause(tr.dn, tr.acc[i]), NameStr(tr.acc[i])>> :
+    \cup {<<i, "MustReject:" \o DnsRejectClause(tr.dn, tr.acc[i]) \o AceTag(AceCase(tr.dn, tr.acc[i])), NameStr(tr.acc[i])>> :
              i \in {j \in 1..Len(tr.acc) : DnsMustReject(tr.dn, tr.acc[j])}}
     \cup {<<i, "OutsideDomain", NameStr(tr.acc[i])>> : i \in {j \in 1..Len(tr.acc) : tr.acc[j] \notin Hosts}}
 SetTally(tr) ==
@@ -41,7 +46,8 @@ ListCaseClause(tr, q) ==
         h == T.hosts[q[1]] IN
     IF ~q[5] /\ ListMustAccept(c, h, q[3], q[4])
     THEN (IF Poisoned(c, h, q[4]) THEN "MustAccept/multi-wildcard-entry-before-match" ELSE "MustAccept")
-    ELSE IF q[5] /\ ListMustReject(c, h, q[3], q[4]) THEN "MustReject:" \o ListRejectClause(c, h, q[3], q[4])
+    ELSE IF q[5] /\ ListMustReject(c, h, q[3], q[4])
+    THEN "MustReject:" \o ListRejectClause(c, h, q[3], q[4]) \o AceTag(ListAceCase(c, h, q[3], q[4]))
     ELSE "ok"
 ListBad(tr) == {<<i, ListCaseClause(tr, tr.cases[i]), "">> :
                    i \in {j \in 1..Len(tr.cases) : ListCaseClause(tr, tr.cases[j]) # "ok"}}
